@@ -31,12 +31,22 @@ type injErr int
 
 func (e injErr) Error() string { return fmt.Sprintf("injected error %d", int(e)) }
 
+// c15Sentinels: error codes 20… are well-known error values of the standard library (and this
+// package's own limit error) as a wrapped reader / writer may return them; like every error of
+// the wrapped side they pass through unchanged and mean nothing else to the wrapper.
+var c15Sentinels = []error{
+	fmt.Errorf("wrapped: %w", io.EOF), io.ErrUnexpectedEOF, io.ErrNoProgress, io.ErrShortWrite, io.ErrClosedPipe, io.ErrShortBuffer,
+	&ioutil.LimitError{Limit: 3}, errors.ErrUnsupported, fmt.Errorf("wrapped: %w", &ioutil.LimitError{Limit: 0}),
+}
+
 func codeToErr(c int) error {
-	switch c {
-	case 0:
+	switch {
+	case c == 0:
 		return nil
-	case 1:
+	case c == 1:
 		return io.EOF
+	case c >= 20 && c-20 < len(c15Sentinels):
+		return c15Sentinels[c-20]
 	default:
 		return injErr(c)
 	}
@@ -70,6 +80,11 @@ func (r *scriptedReader) Read(p []byte) (n int, err error) {
 func showErrC15(err error, under int) string {
 	var le *ioutil.LimitError
 	var ie injErr
+	for i, se := range c15Sentinels {
+		if err == se {
+			return fmt.Sprintf("under(%d)", 20+i)
+		}
+	}
 	switch {
 	case err == nil:
 		return "nil"
@@ -199,6 +214,22 @@ func evalC15Copy(limit, streamLen, accept, chunk int) Result {
 			direct = fail("trunc-copy-count", "limit %d: %d of %d bytes reported written through io.Copy / io.WriteString", limit, total, streamLen)
 		case len(under.got) != want || !isCounterPrefixC15(under.got):
 			direct = fail("trunc-copy-forwarded", "limit %d: %d bytes forwarded (prefix of the stream: %v), want exactly the first %d", limit, len(under.got), isCounterPrefixC15(under.got), want)
+		}
+	}
+	// 3. limited readers stacked on one limited reader: the inner limit still holds for the sum
+	if direct == "ok" {
+		src := &countingReader{total: streamLen, chunk: max(chunk, 1)}
+		total := ioutil.LimitReader(src, uint64(limit))
+		part := limit/2 + 1
+		got := 0
+		for k := 0; k < 3; k++ {
+			b, _ := io.ReadAll(ioutil.LimitReader(total, uint64(part)))
+			got += len(b)
+		}
+		b, _ := io.ReadAll(total)
+		got += len(b)
+		if src.pos > limit || got > limit {
+			direct = fail("nested-over-limit", "LimitReader(src, %d) read through three LimitReader(_, %d) and then directly: %d bytes taken from src, %d delivered", limit, part, src.pos, got)
 		}
 	}
 	impl := "within=1 prefix=1"
@@ -331,6 +362,11 @@ func evalC15TW(limit int, ws string) Result {
 			default:
 				ec = -1
 			}
+			for i, se := range c15Sentinels {
+				if err == se {
+					ec = 20 + i
+				}
+			}
 			if code != 0 {
 				fault = true
 			}
@@ -383,7 +419,7 @@ func genC15(rng *rand.Rand, tier string) (cases []string) {
 				}
 				e := 0
 				if rng.IntN(5) == 0 {
-					e = 1 + rng.IntN(3)
+					e = pick(rng, 1, 2, 3, 1+rng.IntN(3), 20+rng.IntN(len(c15Sentinels)))
 				}
 				cs = append(cs, fmt.Sprintf("%d:%d:%d", plen, k, e))
 			}
@@ -402,7 +438,7 @@ func genC15(rng *rand.Rand, tier string) (cases []string) {
 				}
 				e := 0
 				if rng.IntN(5) == 0 {
-					e = 1 + rng.IntN(3)
+					e = pick(rng, 1, 2, 3, 1+rng.IntN(3), 20+rng.IntN(len(c15Sentinels)))
 				}
 				if rng.IntN(4) == 0 {
 					// the wrapped writer reports a short count (with or without an error)
